@@ -5,7 +5,7 @@ Taint is leaf-based: an origin expression is tainted iff one of its sub-expressi
 closure captured from a tainted value).  Parameter taint is an interprocedural fixpoint over call
 sites (arguments of local calls, elements handed to closures by adaptor calls whose receiver is tainted).
 """
-import json, os
+import json, os, re
 from collections import defaultdict
 from .mir import CalleeView, norm
 from .origin import Origin, strip, core, nosite, show, walk, is_const
@@ -270,9 +270,12 @@ def collect_sinks(taint, skip_fn=lambda f: False):
     return out
 
 
+_LOOPID = re.compile(r"loop\(\d+\)")
+
+
 def canon_key(e):
-    """stable textual key of an operand (call sites erased, truncated)"""
-    return show(nosite(e))[:140]
+    """stable textual key of an operand: call sites and local numbers erased, truncated"""
+    return _LOOPID.sub("loop", show(nosite(e)))[:140]
 
 
 # ------------------------------------------------------------------------------------ guards
